@@ -29,4 +29,65 @@ theorem order_at_most_once_false :
   rw [cex1_calls] at this
   simp at this
 
+/-! ### `unregistered_on_return`, `nothing_after_return`: fuel exhaustion in a callback
+
+  Handler 0's callback schedules handler 7 on watch 9 (the dispatcher stops at `schedStarted`, a new emitter
+  thread having been started), resumes, makes 1999 further calls and runs out of fuel on entering
+  `removeHandler 7 9`, with `cur = removeHandler 7 9` and the stale `pc = schedStarted 7 9 _`.  Its next step
+  re-executes `schedFinish`: it logs `reg 7 9` and then `did (removeHandler 7 9) "ok"`.  Handler 7 is later
+  called for watch 9 without any further registration.  (Checked by evaluation: the kernel needs too long
+  to replay 10000 nested calls for a `decide`.) -/
+
+def cex2_cb : List Op := [.schedule 7 9 0] ++ List.replicate 1999 (.addHandler 1 0) ++ [.removeHandler 7 9]
+def cex2_init : State := init [[.schedule 0 0 0, .start]] [(0, [cex2_cb])] [(0, [1]), (9, [5])]
+def cex2_sched : List Nat := [0, 0, 0, 0, 1, 1, 2, 2, 2, 2, 3, 3, 2, 2]
+def cex2_hist : List Obs := (run cex2_init cex2_sched).hist
+
+-- `hist = p ++ did (removeHandler 7 9) "ok" :: q ++ call 7 9 5 2 :: r` with `registered p 7 9 = true` and no `reg 7 9` in `q`
+#guard
+  let i := cex2_hist.idxOf (.did (.removeHandler 7 9) "ok")
+  let p := cex2_hist.take i
+  let rest := cex2_hist.drop (i + 1)
+  let j := rest.idxOf (.call 7 9 5 2)
+  let q := rest.take j
+  cex2_hist[i]? == some (.did (.removeHandler 7 9) "ok") && rest[j]? == some (.call 7 9 5 2) &&
+    removes (.removeHandler 7 9) 7 9 && registered p 7 9 && !q.contains (.reg 7 9)
+
+#guard runOk cex2_init cex2_sched == false
+
+/-! ### `complete`: fuel exhaustion twice, and a lock released by a thread that does not hold it
+
+  Client 1 unschedules watch 5 while `observer.start()` (client 0) is between starting the emitters and starting
+  the dispatcher, resumes from `unschedJoin`, releases the lock, then burns its fuel on `join` calls that raise
+  (no dispatcher yet): its `pc` stays `unschedJoin`.  The dispatcher copies `[0, 1]` for entry 1, calls handler 0,
+  whose callback removes handler 1 and then runs out of fuel: the dispatcher keeps the lock, `pc = dLock 1 ..`.
+  Client 1 steps again from its stale `unschedJoin` and releases the dispatcher's lock; the dispatcher re-executes
+  the `dLock` step: a second `dispatch 1 0 [0]`, which completes.  Handler 1 of the first copy is neither called
+  nor skipped before `dispatchEnd 1`. -/
+
+def cex3_cb : List Op := [.removeHandler 1 0] ++ List.replicate 2500 (.addHandler 0 0)
+def cex3_c1 : List Op := [.unschedule 5] ++ List.replicate 3400 .join
+def cex3_init : State :=
+  init [[.schedule 0 0 0, .schedule 1 0 0, .schedule 2 5 0, .start], cex3_c1] [(0, [cex3_cb])] [(0, [1])]
+def cex3_sched : List Nat := [0, 0, 0, 0, 0, 1, 1, 3, 1, 0, 0, 2, 2, 4, 4, 1, 4]
+def cex3_hist : List Obs := (run cex3_init cex3_sched).hist
+
+-- `hist = p ++ dispatch 1 0 [0, 1] :: q ++ dispatchEnd 1 :: r`, `1 ∈ [0, 1]`, but no `call 1 0 _ 1` and no `skip 1 1` in `q`
+#guard
+  let i := cex3_hist.idxOf (.dispatch 1 0 [0, 1])
+  let rest := cex3_hist.drop (i + 1)
+  let j := rest.idxOf (.dispatchEnd 1)
+  let q := rest.take j
+  cex3_hist[i]? == some (.dispatch 1 0 [0, 1]) && rest[j]? == some (.dispatchEnd 1) &&
+    !q.any (fun o => match o with | .call 1 0 _ 1 => true | .skip 1 1 => true | _ => false)
+
+#guard runOk cex3_init cex3_sched == false
+
+/-- the non-vacuity example of WD.Props.C04 satisfies both hypotheses of the corrected statements -/
+example :
+    let s0 := init [[.schedule 0 0 0, .schedule 1 0 0, .start]] [(0, [[.unschedule 0]])] [(0, [1, 2])]
+    let sched := [0, 0, 0, 0, 0, 1, 1, 1, 2, 2, 1, 2]
+    runOk s0 sched = true ∧
+      ((run s0 sched).threads.filter (fun t => t.kind == .dispatcher)).length = 1 := by decide +kernel
+
 end WD.ProofsObs
